@@ -1,10 +1,16 @@
 #!/bin/bash
 # ./trimcache.sh [limit_gb] — every scratch copy of /repo is compiled under a new path, so the Go build cache grows by
 # roughly 1 GB per analysed variant; drop it when it exceeds the limit (default 40 GB). Safe: it is only a cache.
+# The corpus scripts hold a shared lock on /tmp/kmipsa-gocache.lock while they compile; the cache is dropped only when
+# nobody does (a cache emptied under a running compiler makes that compile fail), or — at three times the limit —
+# after waiting for them.
 cd "$(dirname "$0")"; . ./env.sh
 LIM=${1:-40}
 D=$(go env GOCACHE 2>/dev/null)
 [ -d "$D" ] || exit 0
 SZ=$(du -s --block-size=1G "$D" 2>/dev/null | awk '{print $1}')
-if [ "${SZ:-0}" -ge "$LIM" ]; then go clean -cache; fi
+if [ "${SZ:-0}" -ge "$LIM" ]; then
+  exec 9>/tmp/kmipsa-gocache.lock
+  if flock -n -x 9 || { [ "$SZ" -ge $((3*LIM)) ] && flock -x -w 900 9; }; then go clean -cache; fi
+fi
 exit 0
